@@ -77,7 +77,11 @@ class Requirement:
         return hash(
             (
                 self.__class__.__name__,
-                *self._iter_parts(canonicalize_name(self.name)),
+                canonicalize_name(self.name),
+                frozenset(self.extras),
+                self.specifier,
+                self.url,
+                self.marker,
             )
         )
 
